@@ -75,7 +75,57 @@ def csg_consts():
          "UnitInserter calc_max_depth", re.S)
     inv = must(r"constexpr int invalid_max_depth = (-?\d+);", ui, "invalid_max_depth")
 
-    return {"bits": bits, "tok": vals, "repl_order": order, "true_id": int(t.group(1)),
+    # ---- runtime volume flags (OrangeData.hh) and the statements of UnitInserter.cc /
+    # UnitProto.cc / VolumeView.hh that write or read them (modelled in Model/CsgRuntime.lean)
+    od = strip_comments(read("src/orange/OrangeData.hh"))
+    m = must(r"enum Flags : logic_int\s*\{([^}]*)\}", od, "VolumeRecord::Flags")
+    flags = {}
+    for item in [x.strip() for x in m.group(1).split(",") if x.strip()]:
+        mm = re.match(r"(\w+)\s*=\s*(0x[0-9a-fA-F]+|\d+)$", item)
+        if not mm:
+            raise TranslateError(f"VolumeRecord::Flags: cannot evaluate `{item}`")
+        flags[mm.group(1)] = int(mm.group(2), 0)
+    for k in ("internal_surfaces", "implicit_vol", "simple_safety", "embedded_universe"):
+        if k not in flags:
+            raise TranslateError(f"VolumeRecord::Flags: `{k}` missing")
+    if len(flags) != 4:
+        raise TranslateError(f"VolumeRecord::Flags: enumerators changed: {sorted(flags)}")
+    must(r"output\.flags = v\.flags;\s*if \(simple_safety\)\s*\{\s*"
+         r"output\.flags \|= VolumeRecord::Flags::simple_safety;\s*\}", ui,
+         "UnitInserter::insert_volume flag assignment")
+    must(r"output\.faces = \{\};\s*output\.logic = logic_ints_\.insert_back\("
+         r"std::begin\(nowhere_logic\),\s*std::end\(nowhere_logic\)\);\s*"
+         r"output\.max_intersections = 0;\s*output\.flags = VolumeRecord::implicit_vol\s*"
+         r"\| VolumeRecord::Flags::simple_safety;", ui,
+         "UnitInserter::insert_volume forced-limit replacement")
+    must(r"static logic_int const nowhere_logic\[\] = \{logic::ltrue, logic::lnot\};", ui,
+         "nowhere_logic")
+    must(r"output\.logic\s*= logic_ints_\.insert_back\(input_logic\.begin\(\), "
+         r"input_logic\.end\(\)\);", ui, "UnitInserter::insert_volume logic copy")
+    must(r"void UnitInserter::process_daughter\(VolumeRecord\* vol_record,\s*"
+         r"DaughterInput const& daughter_input\)\s*\{\s*Daughter daughter;\s*"
+         r"daughter\.universe_id = daughter_input\.universe_id;\s*"
+         r"daughter\.transform_id = insert_transform_\(daughter_input\.transform\);\s*"
+         r"vol_record->daughter_id = daughters_\.push_back\(daughter\);\s*"
+         r"vol_record->flags \|= VolumeRecord::embedded_universe;\s*\}", ui,
+         "UnitInserter::process_daughter body")
+    # every write to a `flags` member in UnitInserter.cc is one of the four modelled statements
+    writes = re.findall(r"flags\s*(?:\|=|&=|\^=|=(?!=))", ui)
+    if len(writes) != 4:
+        raise TranslateError(f"UnitInserter.cc: {len(writes)} writes to a flags member, "
+                             "the model has 4")
+    up = strip_comments(read("src/orange/orangeinp/UnitProto.cc"))
+    must(r"if \(has_internal_surfaces\(node_id\)\)\s*\{\s*"
+         r"vi\.flags \|= VolumeRecord::internal_surfaces;\s*\}", up,
+         "UnitProto::build internal_surfaces flag")
+    if len(re.findall(r"flags\s*(?:\|=|&=|\^=|=(?!=))", up)) != 3:
+        raise TranslateError("UnitProto.cc: number of writes to a flags member changed")
+    vv = strip_comments(read("src/orange/univ/VolumeView.hh"))
+    must(r"bool VolumeView::internal_surfaces\(\) const\s*\{\s*"
+         r"return def_\.flags & VolumeRecord::internal_surfaces;\s*\}", vv,
+         "VolumeView::internal_surfaces")
+
+    return {"flags": flags, "bits": bits, "tok": vals, "repl_order": order, "true_id": int(t.group(1)),
             "false_id": int(f.group(1)), "invalid_max_depth": int(inv.group(1))}
 
 
@@ -109,6 +159,11 @@ def trueId : Nat := {c['true_id']}
 def falseId : Nat := {c['false_id']}
 /-- `invalid_max_depth` of `UnitInserter.cc` -/
 def invalidMaxDepth : Int := {c['invalid_max_depth']}
+/-- `VolumeRecord::Flags` (`OrangeData.hh`) -/
+def flagInternalSurfaces : Nat := {c['flags']['internal_surfaces']}
+def flagImplicitVol : Nat := {c['flags']['implicit_vol']}
+def flagSimpleSafety : Nat := {c['flags']['simple_safety']}
+def flagEmbeddedUniverse : Nat := {c['flags']['embedded_universe']}
 
 end CelerVerif.Generated.Csg
 """
